@@ -283,10 +283,25 @@ func (e *Eval) compile(node ast.Node) error {
 		// over in the post.
 		e.emit(code.OpIterationReset)
 
+		// The thing we iterate over is kept in a hidden variable,
+		// local to the scope of this loop, rather than upon the
+		// stack: statements in the body may leave values upon the
+		// stack (for example a call whose result is ignored), and
+		// those must not be mistaken for the iterable when we come
+		// round again.  The name cannot clash with an identifier.
+		hidden := e.addConstant(&object.String{Value: " foreach"})
+		e.emit(code.OpConstant, hidden)
+		e.emit(code.OpLocal)
+		e.emit(code.OpConstant, hidden)
+		e.emit(code.OpSet)
+
 		// Now we're at the start of our loop,
 		// we'll jump back to this point each
 		// time round.
 		start := len(e.instructions)
+
+		// Put the thing we iterate over back upon the stack.
+		e.emit(code.OpLookup, hidden)
 
 		// Store the name of the index-variable.
 		str := &object.String{Value: node.Index}
@@ -302,6 +317,10 @@ func (e *Eval) compile(node ast.Node) error {
 
 		// jump end
 		end := e.emit(code.OpJumpIfFalse, 9999)
+
+		// The iterable was pushed back for us: save it again.
+		e.emit(code.OpConstant, hidden)
+		e.emit(code.OpSet)
 
 		// Output the body
 		err = e.compile(node.Body)
